@@ -148,16 +148,18 @@ def _cli_expect(word):
             return word
 
 
-VALUE_TOKENS = ["true", "false", "null", "abc", "x1", "True", "none", "1e3", "1.5", "-0.25", "a.b", "007", "+5", "/^a.*b$/", "//", '{"$gt": 1}', '{"$in": [1, "x"]}', "[1, 2]", '{"b": {"$exists": false}}', "!"]
+VALUE_TOKENS = ["true", "false", "null", "abc", "x1", "True", "none", "1e3", "1.5", "-0.25", "a.b", "007", "+5", "/^a.*b$/", "//", '{"$gt": 1}', '{"$in": [1, "x"]}', "[1, 2]", '{"b": {"$exists": false}}', "!",
+                '{"$gt":1}', r"/^a\.b$/", r"/x\d+$/", '{"$in":[1,"x"]}', "'q'"]
+NTOK = len(VALUE_TOKENS)
 
 
 def h_cli_tokens(ki: int, t: int, n: int, k2: int, t2: int):
     """command-line token syntax vs the mapping it stands for (key value pairs, single key = $exists, /re/ = $regex, JSON tokens)"""
-    assert 0 <= ki < 4 and 0 <= t < 20 and 1 <= n <= 4 and 0 <= k2 < 4 and 0 <= t2 < 20 and k2 != ki
+    assert 0 <= ki < 4 and 0 <= t < NTOK and 1 <= n <= 4 and 0 <= k2 < 4 and 0 <= t2 < NTOK and k2 != ki
     assert (n >= 3 or (k2 == (ki + 1) % 4 and t2 == 0)) and (n != 1 or t == 0) and part_ok(t)
     assert tier() != "quick" or n <= 3
     fresh_path()
-    ki, t, n, k2, t2 = ci(ki, 0, 3), ci(t, 0, 19), ci(n, 1, 4), ci(k2, 0, 3), ci(t2, 0, 19)
+    ki, t, n, k2, t2 = ci(ki, 0, 3), ci(t, 0, NTOK - 1), ci(n, 1, 4), ci(k2, 0, 3), ci(t2, 0, NTOK - 1)
     with nt():
         key, tok = CLI_KEYS[ki], VALUE_TOKENS[t]
         tokens = [key, tok, CLI_KEYS[k2], VALUE_TOKENS[t2]][:n]
@@ -187,6 +189,14 @@ def h_cli_tokens(ki: int, t: int, n: int, k2: int, t2: int):
         except Exception as e:  # noqa
             r2 = type(e).__name__
         ok = ok and r1 == r2
+        # the string front end: find_jobs("key value ...") splits at white space and reads the tokens like the command line does
+        if not any(" " in tk for tk in tokens):
+            try:
+                got3 = dict(FP.parse_filter(" ".join(tokens)))
+                r3 = sorted(pr._find_job_ids(dict(got3)))
+            except Exception as e:  # noqa
+                got3, r3 = None, type(e).__name__
+            ok = ok and r3 == r2 and (isinstance(r2, str) or got3 == want)
     reached()
     assert ok
 
@@ -252,6 +262,25 @@ def _cursor_case(mask, docmask, fi):
         if not flt:
             if sorted(j.id for j in pr) != want or len(pr) != len(want):
                 problems.append(("project iteration",))
+        else:
+            # a filtered cursor is a snapshot: after the workspace changes, ALL its views still describe the same id set
+            # (a second cursor whose FIRST membership test comes after the change; `cur` has answered membership tests already)
+            cur2 = pr.find_jobs(flt)
+            ids2 = [j.id for j in cur2]
+            gone = None
+            if want:
+                gone = pr.open_job(id=want[0])
+                gone.remove()
+            added = pr.open_job({"a": 0, "b": 0, "extra": 1}).init()
+            for c_, ids_ in ((cur, ids), (cur2, ids2)):
+                if len(c_) != len(ids_) or [j.id for j in c_] != ids_ or [j.id for j in c_[0:len(ids_)]] != ids_:
+                    problems.append(("evaluated cursor changed its len / iteration / slice after a workspace change",))
+                for i in range(4):
+                    job = pr.open_job(U[i])
+                    if (job in c_) != (job.id in ids_):
+                        problems.append(("membership after a workspace change disagrees with the cursor's iteration", i))
+                if added in c_:
+                    problems.append(("a job added after the cursor was evaluated is a member, but not iterated",))
     finally:
         s.close()
     return problems
